@@ -149,9 +149,11 @@ func (j *cacheJanitor[MetadataT]) cleanExpiredEntries() {
 		slog.Info("Removed expired cache entry for key", "key", key.Hex)
 	}
 
+	// The BytesCached gauge is kept by addCacheSize/decrementCacheSize with every change, including the
+	// removals above. Publishing the size read here into it as well would overwrite (or count twice) a store or
+	// delete that lands between the read and the publication, and the gauge would stay wrong from then on.
 	endCacheSize := j.cacheFns.getCacheSize()
 	verifhook.At("janitor.size.read", endCacheSize)
-	metrics.Global.Cache.BytesCached.Set(endCacheSize)
 	metrics.Global.Cache.BytesCleaned.Add(startCacheSize - endCacheSize)
 
 	slog.Info("Cache cleanup complete", "new_size", endCacheSize)
@@ -219,9 +221,9 @@ func (j *cacheJanitor[MetadataT]) evict(maxCacheBytes int64) {
 		}
 	}
 
+	// BytesCached follows every removal through decrementCacheSize; see cleanExpiredEntries.
 	endCacheSize := j.cacheFns.getCacheSize()
 	verifhook.At("janitor.size.read", endCacheSize)
-	metrics.Global.Cache.BytesCached.Set(endCacheSize)
 	metrics.Global.Cache.BytesCleaned.Add(startCacheSize - endCacheSize)
 
 	slog.Info("Cache eviction complete", "evicted_entries", evictions, "new_size", endCacheSize)
